@@ -277,6 +277,35 @@ func genC11(e *emitter, tier string, seed uint64) {
 			e.note("fee.paid")
 		}
 	}
+	// rates that are not binary fractions, with byte counts whose product with the rate is an exact integer: the fee is
+	// floor(bytes x satoshis / per-bytes) in integers — a detour through floating point lands one satoshi low
+	for _, rate := range [][2]int{{145, 1000}, {290, 1000}, {29, 100}, {57, 100}, {7, 1000}, {1, 3}, {58, 100}, {113, 1000}, {3, 10}, {7, 10}} {
+		for _, mult := range []int{1, 2, 3} {
+			per := rate[1]
+			tx := genFeeTx(r, 1, 0, 0, 100)
+			data := append([]byte{0x00, 0x6a}, r.bytes(per*mult-2)...) // data bytes = per*mult exactly
+			tx.Outputs = append(tx.Outputs, &bt.Output{Satoshis: 0, LockingScript: scr(data)})
+			pad := &bt.Output{Satoshis: 1000, LockingScript: scr(nonData(r.bytes(30)))}
+			tx.Outputs = append(tx.Outputs, pad)
+			for tries := 0; tries < 5; tries++ { // pad the standard part to a multiple of the quote's byte unit
+				sz := tx.SizeWithTypes()
+				rem := int(sz.TotalStdBytes) % per
+				if rem == 0 {
+					break
+				}
+				pad.LockingScript = scr(nonData(r.bytes(len(*pad.LockingScript) + per - rem)))
+			}
+			fq := fmt.Sprintf("%d/%d,%d/%d", rate[0], rate[1], rate[0], rate[1])
+			f, _ := tx.EstimateFeesPaid(parseFq(fq))
+			for _, delta := range []int{-1, 0, 1} {
+				if f != nil {
+					tx.Inputs[0].PreviousTxSatoshis = uint64(int(tx.TotalOutputSatoshis()+f.TotalFeePaid) + delta)
+				}
+				e.run("C11.fee", descTx(tx), fq)
+				e.note("fee.exact-product")
+			}
+		}
+	}
 	// signed sizes from the real signer
 	m := 60
 	if tier != "quick" {
